@@ -105,6 +105,12 @@ class World:
         self.known_hits: dict[str, int] = {}
         self.clock = seams.CLOCK
         self.clock.reset(self.cfg.get("clock_start", seams.CLOCK_EPOCH))
+        # the process time zone is part of the simulated environment (POSIX TZ rule string, no zoneinfo needed)
+        tz = self.cfg.get("tz", "UTC")
+        if os.environ.get("TZ") != tz:
+            import time as _t
+            os.environ["TZ"] = tz
+            _t.tzset()
         self.disk = SimDisk()
         self.decks: list[Deck] = []
         self.seq = 0
@@ -221,7 +227,17 @@ class World:
                 self.faults.hit("sink_devfull_enospc")
                 return False, None, e
             return True, None, None
-        sink = SimSink(sink_kind, fault=fault, counters=self.faults)
+        if sink_kind == "reused":
+            # the caller keeps ONE seekable stream and saves into it again and again without rewinding: every save appends
+            # a complete archive; a zip reader takes the last one
+            sink = getattr(deck, "kept_sink", None)
+            if sink is None or sink.dead:
+                sink = deck.kept_sink = SimSink("seekable", counters=self.faults)
+            else:
+                self.probes.hit("saved_again_into_the_same_stream")
+            sink._fault, sink.fired, sink.writes = fault, False, 0
+        else:
+            sink = SimSink(sink_kind, fault=fault, counters=self.faults)
         try:
             deck.prs.save(sink)
         except SimCrash:
